@@ -175,6 +175,14 @@ def check_case(case):
                 res.fail(f'build/rejected-but-definition-executes/{tag}', f'{text!r} {opts}: build_model {b!r}, '
                          f'but the text of build_model_definition executes')
             return res
+        if kind != 'default' and (not d.ok or not b.ok):
+            # the converters used here return valid code for every symbol: whatever builds with the default converter
+            # builds with them too
+            plain = attempt(fsic.build_model, symbols, with_type_hints=hints, **ropts)
+            if plain.ok:
+                res.fail(f'converter/build-raised-{d.exc_name or b.exc_name}/{tag}', f'{text!r} {opts} converter {kind}: definition {d!r}, '
+                         f'build_model {b!r}; both succeed with the default converter')
+                return res
         if not d.ok or not b.ok:
             if d.exc_name != b.exc_name:
                 res.fail(f'build/outcome-differs/{tag}', f'{text!r} {opts}: definition {d!r}, build_model {b!r}')
